@@ -673,6 +673,64 @@ func init() {
 			}
 			v.close()
 		}
+		// ---- the same message delivered to one node by several goroutines at once
+		for _, isTrx := range []bool{false, true} {
+			rounds := 40
+			if c.Tier == "thorough" {
+				rounds = 400
+			}
+			worst := 0
+			for r := 0; r < rounds; r++ {
+				adj := [][]int{{1}, {0, 2, 3}, {1}, {1}}
+				v := newVnet(c, 4, adj, []bool{true, true, true, true}, isTrx)
+				v.silent = true
+				v.originate(0)
+				if len(v.queue) == 0 {
+					v.close()
+					continue
+				}
+				m := v.queue[0]
+				v.queue = nil
+				var wg sync.WaitGroup
+				start := make(chan struct{})
+				for g := 0; g < 8; g++ {
+					wg.Add(1)
+					go func() {
+						defer wg.Done()
+						<-start
+						if m.vrx != nil {
+							v.gsp[1].Server().GossipVrx(context.Background(), proto.Clone(m.vrx).(*pb.VrxMsgGossip))
+						} else {
+							v.gsp[1].Server().GossipTrx(context.Background(), proto.Clone(m.trx).(*pb.TrxMsgGossip))
+						}
+					}()
+				}
+				g0 := runtime.NumGoroutine()
+				close(start)
+				wg.Wait()
+				for i := 0; i < 40000 && runtime.NumGoroutine() > g0-8; i++ {
+					time.Sleep(50 * time.Microsecond)
+				}
+				v.settle()
+				to2 := 0
+				for _, q := range v.queue {
+					if q.dst == 2 {
+						to2++
+					}
+				}
+				if to2 > worst {
+					worst = to2
+				}
+				c.Rep.Evals++
+				v.close()
+				if to2 > 1 {
+					c.Violate("C11", "concurrent-duplicates-forwarded-twice", fmt.Sprintf("8 simultaneous copies of one %s message at a relay: forwarded %d times to the same peer", map[bool]string{false: "vertex", true: "transaction"}[isTrx], to2),
+						map[string]interface{}{"section": "gossip", "scenario": "simultaneous-duplicates", "kind": isTrx, "round": r})
+					break
+				}
+			}
+			c.Distinct(fmt.Sprintf("simultaneous-duplicates/trx=%v/max-forwards=%d", isTrx, worst))
+		}
 		// ---- two items out of order: the child vertex reaches a relay before its parent
 		for rep := 0; rep < 2; rep++ {
 			adj := [][]int{{1}, {0, 2}, {1}}
